@@ -363,3 +363,46 @@ Proof.
   revert O. generalize (final el_step EB (head1 ++ bin ++ head2 ++ (39 :: bin ++ [39]) ++ head3 ++ gi el_fmt c t [])).
   intros st O. destruct st; try discriminate O; reflexivity.
 Qed.
+
+(** the same for [clap_complete::aot::generate] as a whole ([set_bin_name], [build], the generator):
+    the built command does not depend on the texts *)
+Theorem elvish_generate_structure c bin t1 t2 b s1 s2 :
+  build (set_bin_name c bin) = Some b -> cmd_plain el_plain b = true ->
+  generate_elvish c t1 bin = Some s1 -> generate_elvish c t2 bin = Some s2 ->
+  skeleton (events el_step EB s1) = skeleton (events el_step EB s2) /\
+  final el_step EB s1 = final el_step EB s2.
+Proof.
+  intros Hb Hp G1 G2. unfold generate_elvish in G1, G2. rewrite Hb in G1, G2.
+  destruct (tbuild (set_bin_name c bin) t1) as [tb1|]; [|discriminate].
+  destruct (tbuild (set_bin_name c bin) t2) as [tb2|]; [|discriminate].
+  exact (elvish_script_structure b tb1 tb2 s1 s2 (build_bins_built _ _ Hb) Hp G1 G2).
+Qed.
+
+(** non-vacuity: the built example tree is in the class, and two text assignments with quotes,
+    newlines and different emptiness both produce a script *)
+Definition ex_texts2 : ttree :=
+  mkTt None false [] [mkTt (Some []) false [mkAt (Some [39; 10; 39; 39; 36; 40]) false] []].
+Example elvish_structure_nonvacuous :
+  exists s1 s2, build (set_bin_name ex_tree (lit "p")) = Some ex_built /\ cmd_plain el_plain ex_built = true /\
+    generate_elvish ex_tree ex_texts (lit "p") = Some s1 /\ generate_elvish ex_tree ex_texts2 (lit "p") = Some s2 /\
+    s1 <> s2.
+Proof.
+  eexists. eexists. split; [exact ex_built_eq|]. split; [vm_compute; reflexivity|].
+  split; [vm_compute; reflexivity|]. split; [vm_compute; reflexivity|]. discriminate.
+Qed.
+
+(** the class is sharp: names are written into the script unescaped, so with a quote in a subcommand
+    name the about text of that subcommand is read OUTSIDE a literal and changes the skeleton *)
+Definition quote_tree : cmd :=
+  mkCmd (lit "p") [] [] [mkCmd [120; 39] [] [] [] None false false sets0 sets0] None false false
+        (mkSets true true true false) (mkSets true true true false).
+Lemma elvish_quote_in_name_refuted :
+  exists c bin t1 t2 s1 s2,
+    generate_elvish c t1 bin = Some s1 /\ generate_elvish c t2 bin = Some s2 /\
+    skeleton (events el_step EB s1) <> skeleton (events el_step EB s2).
+Proof.
+  exists quote_tree, (lit "p"), (mkTt None false [] [mkTt (Some (lit "a b")) false [] []]),
+         (mkTt None false [] [mkTt (Some (lit "ab")) false [] []]).
+  eexists. eexists. split; [vm_compute; reflexivity|]. split; [vm_compute; reflexivity|].
+  vm_compute. discriminate.
+Qed.
